@@ -179,6 +179,30 @@ func evalC05(k c05Case) []pbt.Violation {
 				vs = append(vs, pbt.Violation{Signature: "match-dispatch:" + l + ":" + cls, Detail: fmt.Sprintf("%s decoder does not instantiate the packet the table maps the key to: %s", l, dd)})
 			}
 		}
+		// decoding into an object that already holds another message must dispatch afresh
+		if len(k.Msgs) >= 2 && l != "rust" {
+			cmds := []xlang.Cmd{{Op: "CKS", Arg: "0"}, {Op: "REUSE", Arg: "1"}}
+			var idx []int
+			for i := len(k.Msgs) - 1; i >= 0; i-- { // reverse order: a different key than the one decoded last
+				cmds = append(cmds, xlang.Cmd{Op: "DEC", Packet: k.Msgs[i].Packet, Arg: hex.EncodeToString(x.Ref[i].Bytes[0])})
+				idx = append(idx, i)
+			}
+			cmds = append(cmds, xlang.Cmd{Op: "REUSE", Arg: "0"})
+			out, crash := lr.Built.Run(cmds)
+			if crash != "" {
+				vs = append(vs, pbt.Violation{Signature: "crash:" + l, Detail: crash})
+			} else {
+				for j, i := range idx {
+					d := out[j+2]
+					if !d.OK {
+						vs = append(vs, pbt.Violation{Signature: "match-reuse-dec-error:" + l, Detail: fmt.Sprintf("%s: decoding into an object that held another message fails: %s", l, clip(d.Err, 160))})
+					} else if got, want := ownPayloadTypes(k.Prog, k.Msgs[i].Packet, d.Dump), ownPayloadTypes(k.Prog, k.Msgs[i].Packet, x.Ref[i].Canon[0]); got != want {
+						// only the dispatch is C05's business here: other members of a reused object are not compared
+						vs = append(vs, pbt.Violation{Signature: "match-reuse-dispatch:" + l, Detail: fmt.Sprintf("%s: decoding a second message into an object that held another one instantiates payload packet(s) [%s], the table maps the key to [%s]", l, got, want)})
+					}
+				}
+			}
+		}
 		if len(k.Probes) > 0 {
 			cmds := []xlang.Cmd{{Op: "CKS", Arg: "0"}}
 			for _, pr := range k.Probes {
@@ -257,4 +281,31 @@ func probeKeys(ps []c05Probe) []string {
 		o = append(o, p.Key)
 	}
 	return o
+}
+
+// payloadTypes lists the dynamic payload type names appearing in a dump, in order.
+func payloadTypes(p *dsl.Program, dump string) string {
+	var o []string
+	for _, t := range strings.Fields(dump) {
+		if p.PacketByName(t) != nil {
+			o = append(o, t)
+		}
+	}
+	return strings.Join(o, ",")
+}
+
+// ownPayloadTypes: the dynamic type of each match field declared directly in the packet.
+func ownPayloadTypes(p *dsl.Program, packet, dump string) string {
+	pk := p.PacketByName(packet)
+	var o []string
+	for _, f := range pk.Fields {
+		if f.Kind == dsl.KMatch {
+			t, ok := dumpTokenFor(p, pk, dump, pk.Name+"."+f.Name)
+			if !ok {
+				t = "?"
+			}
+			o = append(o, f.Name+"="+t)
+		}
+	}
+	return strings.Join(o, ",")
 }
